@@ -97,6 +97,24 @@ def run_population(ctx, items, label, rnd, nmatch):
                                          matched_against_first_ast=len(cases)))
 
 
+def _accepted_mutants(args):
+    toks, seed = args
+    from pycparser import c_parser
+    from . import c06
+    out = []
+    mrnd = random.Random(seed)
+    for src in c06.token_mutants(toks, ["typedef", "static", "int", "T", "x", "*", "(", ")", "[", "]", ",", ";", "=", "1", "{", "}", "struct",
+                                        "const", "_Atomic", "extern", "inline", ":", "..."], mrnd, 24):
+        if "#" in src:
+            continue
+        try:
+            c_parser.CParser().parse(src, "m.c")
+            out.append(src)
+        except Exception:
+            pass
+    return out
+
+
 def generator_traces(ctx, rnd, items):
     """code -> spec: the generator's indentation events while it produces the round-tripped text are a behaviour
     of spec/GenTrace.tla (every block restores its level, every visit ends where it began)."""
@@ -145,6 +163,7 @@ def run(tier):
     res = tlc("CExpr", c02.cfg_text(2 if tier == "quick" else 3, ["min"], True, inv=False), on_export=ex.append)
     tlc_ok(res, "CExpr")
     ctx.add_tlc(res, "CExpr ops<=%d" % (2 if tier == "quick" else 3))
+    ex.sort(key=lambda e: " ".join(e["toks"]))
     if len(ex) > 150000:
         ex = rnd.sample(ex, 150000)
     eitems = [("void f(void){ %s; }" % " ".join(e["toks"]), "expr") for e in ex]
@@ -159,6 +178,16 @@ def run(tier):
     dcases = rnd.sample(dcases, min(len(dcases), 5000 if tier == "quick" else 60000))
     ditems = [(src, "cdecl:" + label) for c in dcases for label, src, get in c03.render(c)]
     run_population(ctx, ditems, "declarations", rnd, 500 if tier == "quick" else 5000)
+    # texts the parser accepts although no grammar machine derives them: token-level mutants of derived programs that
+    # still parse (the property quantifies over every source text that parses, valid C or not)
+    from . import c06
+    mjobs = [(e["toks"], rnd.randrange(1 << 30)) for e in rnd.sample(progs, 1500 if tier == "quick" else 20000)]
+    mitems = []
+    for lst in pmap(_accepted_mutants, mjobs, chunk=16):
+        mitems += [(src, "mutant") for src in lst]
+    seen = set()
+    mitems = [x for x in mitems if not (x[0] in seen or seen.add(x[0]))]
+    run_population(ctx, mitems, "accepted token mutants", rnd, 0)
     citems = [(txt, "corpus:" + name) for name, txt in corpus.preprocessed(None)]
     run_population(ctx, citems, "corpus", rnd, len(citems))
     from .c12 import GEN_PROGRAMS
